@@ -1538,7 +1538,11 @@ def loop_in_thread(loop: Loop) -> Callable[[], None]:
 
     future = _CROSS_LOOP_POOL.submit(_loop_thread)
 
-    while not loop.is_running():
+    # Wait until the thread started here is the one running the loop: a
+    # loop which is merely borrowed by an ensure_aw call at the moment is
+    # running as well, but will stop by itself (and wouldn't be stopped
+    # by the function returned below)
+    while not (running and loop.is_running()) and not future.done():
         sleep(0)  # Force switching to other threads
 
     def _stopper() -> None:
